@@ -434,7 +434,9 @@ Spec == Init /\ [][Next]_vars
 done == phase = "done"
 
 \* What an action has produced is never touched again (UNCHANGED in every later action), so each
-\* invariant below is evaluated in the phase that has just produced its subject.
+\* invariant below is evaluated in one phase in which its subject exists.  (Penrose and CovSane speak about
+\* the raw outcome only; they are evaluated in phase "computed" because TLC evaluates the invariants of ALL
+\* successors of the single initial state -- one per outcome, phase "raw" -- in one thread.)
 Frozen == [][/\ phase # "init" => raw' = raw
              /\ phase \in {"computed", "reported"} => stats' = stats
              /\ phase = "reported" => tables' = tables]_vars
@@ -454,7 +456,7 @@ RawWellFormed == phase = "raw" => WellFormed(raw)
 
 \* the pseudo-inverse used for the classical covariance satisfies the four Penrose conditions;
 \* it is the inverse whenever -H is regular
-Penrose == phase = "raw" =>
+Penrose == phase = "computed" =>
     LET A == MNeg(raw.H, raw.K)                     \* minus the Hessian is hs * A
         V == ClassicalCov(raw)
     IN  /\ PenroseHoldsScaled(A, raw.hs, V, raw.K)
@@ -490,7 +492,7 @@ FamilySeparation == phase = "computed" =>
 
 \* covariance matrices are symmetric; a sample covariance and a sandwich around a PSD BHHH have a
 \* non-negative diagonal; Cauchy-Schwarz for the sample covariance
-CovSane == phase = "raw" =>
+CovSane == phase = "computed" =>
     /\ \A k \in 1..Len(FamNames) : MIsSym(CovOf(raw, FamNames[k]).num, raw.K) /\ CovOf(raw, FamNames[k]).den > 0
     /\ MIsPSD(raw.B, raw.K) => \A i \in 1..raw.K : RobustCov(raw).num[i][i] >= 0
     /\ raw.boot.ex => LET C == BootCov(raw) IN
